@@ -2,6 +2,7 @@
 mod c15;
 mod c16;
 mod c17;
+mod c21;
 mod harness;
 
 
@@ -13,7 +14,7 @@ use std::io::Read;
 use std::process::{Command, Stdio};
 
 fn checks() -> Vec<Check> {
-    vec![c15::check(), c16::check(), c17::check()]
+    vec![c15::check(), c16::check(), c17::check(), c21::check()]
 }
 
 fn find_check(id: &str) -> Check {
@@ -312,7 +313,11 @@ fn coordinator(id: &str, tier: Tier, seed: u64) -> i32 {
         }
     }
     let wall = t0.elapsed().as_secs_f64();
-    let ev = harness::evidence_from(&check, tier, seed, &m, wall, violations, extra_notes);
+    let mut ev = harness::evidence_from(&check, tier, seed, &m, wall, violations, extra_notes);
+    if std::env::var_os("VERIF_EVIDENCE_PART").is_some() {
+        // this run is one part of a check whose evidence file is written by the other simulator
+        ev.property_id = format!("{}-l2.part", ev.property_id);
+    }
     match ev.write(&root) {
         Ok(p) => println!("l2: evidence written to {}", p.display()),
         Err(e) => {
